@@ -117,6 +117,10 @@ func (p Plugin) CalculateRealloc(ctx context.Context, nodename string, resource 
 		NUMANode: numaNodeID,
 		Memory:   newReq.MemLimit,
 	}
+	if req.CPUBind {
+		// the cpu map is made of the request; the limit may be 0 (unlimited) with bind
+		engineParams.CPU = newReq.CPURequest
+	}
 
 	newResource := &cpumemtypes.WorkloadResource{
 		CPURequest:    newReq.CPURequest,
@@ -240,7 +244,8 @@ func (p Plugin) doAllocByCPU(resourceInfo *cpumemtypes.NodeResourceInfo, deployC
 
 	for _, cpuPlan := range cpuPlans {
 		enginesParams = append(enginesParams, &cpumemtypes.EngineParams{
-			CPU:      req.CPULimit,
+			// the cpu map is made of the request; the limit may be 0 (unlimited) with bind
+			CPU:      req.CPURequest,
 			CPUMap:   cpuPlan.CPUMap,
 			NUMANode: cpuPlan.NUMANode,
 			Memory:   req.MemLimit,
